@@ -56,11 +56,14 @@ DSpaced == D("sp", "nl", "sp", "sp", "sp", "nl")
 DCom    == D("com", "spcom", "tab", "none", "sp", "com")
 DBlank  == D("blank", "blank", "mix", "sp2", "mix", "eof")
 DCrlf   == D("crlf", "none", "none", "tab", "sp", "nl")
-MCDecos == {DTight, DCom}
-MCDecosT == {DTight, DSpaced, DCom, DBlank}
+\* comments glued (no blank) to the previous token wherever a comment may start: as gap right behind
+\* '}' ']' ';' '{' or a header, right behind the opener of an enclosed header, right behind its name
+DGlue   == D("com", "com", "none", "com", "sp", "com")
+MCDecos == {DTight, DCom, DGlue}
+MCDecosT == {DTight, DSpaced, DCom, DBlank, DGlue}
 \* thorough: the slots vary independently (gap x blank before '=' x blank after the value x value end)
-MCDecosP == {D(g, IF g = "none" THEN "none" ELSE "nl", b1, b1, b3, t) :
-               g \in {"none", "com"}, b1 \in {"none", "sp"}, b3 \in {"none", "sp"}, t \in {"nl", "com"}} \ {D("none", "none", "sp", "sp", "none", "com"), D("com", "nl", "sp", "sp", "none", "com")}
+MCDecosP == ({D(g, IF g = "none" THEN "none" ELSE "nl", b1, b1, b3, t) :
+               g \in {"none", "com"}, b1 \in {"none", "sp"}, b3 \in {"none", "sp"}, t \in {"nl", "com"}} \ {D("none", "none", "sp", "sp", "none", "com"), D("com", "nl", "sp", "sp", "none", "com")}) \cup {DGlue}
 MCConfigsQ == ShippedConfigs \cup {Cfg(FmtEncSame, Null), Cfg(FmtEncNest, Null), Cfg(FmtOptEnd, Null)}
 
 Bound == TRUE
